@@ -282,14 +282,19 @@ impl Woz1 {
     }
     /// Find track and get a reference
     fn get_trk_ref(&self,track: u8) -> Result<&Trk,img::NibbleError> {
-        return Ok(&self.trks.tracks[self.get_trk_idx(track)?]);
+        match self.trks.tracks.get(self.get_trk_idx(track)?) {
+            // the bit count must not exceed the fixed size bit buffer, a zero bit count would stall the bit pointer
+            Some(trk) if trk.bit_count!=[0,0] && u16::from_le_bytes(trk.bit_count) as usize <= trk.bits.len()*8 => Ok(trk),
+            _ => Err(img::NibbleError::BadTrack)
+        }
     }
     /// Get a reference to the track bits
     fn get_trk_bits_ref(&self,track: u8) -> Result<&[u8],img::NibbleError> {
-        return Ok(&self.trks.tracks[self.get_trk_idx(track)?].bits);
+        return Ok(&self.get_trk_ref(track)?.bits);
     }
     /// Get a mutable reference to the track bits
     fn get_trk_bits_mut(&mut self,track: u8) -> Result<&mut [u8],img::NibbleError> {
+        self.get_trk_ref(track)?;
         let idx = self.get_trk_idx(track)?;
         return Ok(&mut self.trks.tracks[idx].bits);
     }
